@@ -17,6 +17,9 @@ H = "vf.harness.C17:"
 
 ENCODES = [
     "synrbl.SynUtils.chem_utils:normalize_smiles",
+    "synrbl.SynUtils.chem_utils:canon_smiles",
+    "synrbl.SynUtils.chem_utils:remove_stereo_chemistry",
+    "synrbl.SynUtils.chem_utils:count_atoms",
     "synrbl.SynUtils.chem_utils:wc_similarity",
     "synrbl.SynUtils.chem_utils:_get_diff_mol",
 ]
@@ -33,10 +36,10 @@ EXPLANATION = (
 )
 BOUNDS = [
     "sort key query: unbounded strings (uninterpreted components)",
-    "E1 normalisation: <= 3 molecules per side drawn from a pool of 7 tokens containing anagram pairs, equal-length pairs and two spellings of one molecule; all permutations. E1 similarity: two reactant molecules per reaction from a pool of 4 (anagram pair + two spellings of one molecule), one fixed product, similarity value in {0,1/4,..,1}",
+    "E1 normalisation: <= 3 molecules per side drawn from a pool of 7 tokens containing anagram pairs, equal-length pairs and two spellings of one molecule; all permutations. E1 similarity: two reactant molecules in the expected reaction, one to three in the compared one, from a pool of 4 (anagram pair + two spellings of one molecule), one fixed product, similarity value in {0,1/4,..,1}",
 ]
 STUBS = [
-    "canon_smiles -> idempotent map on the pool (two spellings of one molecule map to one canonical token): RDKit's canonicalisation contract",
+    "Chem.MolFromSmiles/SanitizeMol/MolToSmiles inside the real canon_smiles -> idempotent canonical map on the pool (second spellings of ethanol and methanol map to the canonical token): RDKit's canonicalisation contract",
     "fingerprint generators / DataStructs similarity -> arbitrary symmetric function of the two compared molecule sets into [0,1]; numpy.min -> min",
     "rdmolfiles.MolFromSmiles / Chem.RWMol in _get_diff_mol -> opaque molecule-set objects",
 ]
@@ -129,8 +132,8 @@ def _sort_key_obligation(tier):
 
 
 # ------------------------------------------------------------------ E1: permutation invariance / similarity
-POOL = ["CCCO", "CCOC", "CC", "OO", "C(C)O", "CCO", "N"]
-CANON = {"C(C)O": "CCO"}  # two spellings of one molecule
+POOL = ["CCCO", "CCOC", "CC", "OC", "C(C)O", "CCO", "N"]
+CANON = {"C(C)O": "CCO", "OC": "CO"}  # second spellings of ethanol and of methanol (a two-character SMILES)
 
 
 class _MolSet:
@@ -144,7 +147,21 @@ class _RWMol(_MolSet):
 
 
 class _Chem:
+    """canon_smiles itself stays real: MolFromSmiles(sanitize=False) / SanitizeMol / MolToSmiles are the stubs"""
+
     RWMol = _RWMol
+
+    @staticmethod
+    def MolFromSmiles(s, sanitize=True):
+        return _MolSet(s)
+
+    @staticmethod
+    def SanitizeMol(m):
+        return None
+
+    @staticmethod
+    def MolToSmiles(m):
+        return ".".join(CANON.get(t, t) for t in m.key.split("."))
 
 
 class _rdmolfiles:
@@ -203,7 +220,6 @@ class _DS:
 
 
 def _install():
-    cu.canon_smiles = lambda s: CANON.get(s, s)
     cu.Chem = _Chem
     cu.rdmolfiles = _rdmolfiles
     cu.np = _NP
@@ -213,7 +229,7 @@ def _install():
 
 
 _REAL = {}
-for _n in ("canon_smiles", "Chem", "rdmolfiles", "np", "AllChem", "rdFingerprintGenerator", "DataStructs"):
+for _n in ("Chem", "rdmolfiles", "np", "AllChem", "rdFingerprintGenerator", "DataStructs"):
     if not hasattr(cu, _n):
         raise RuntimeError("patch point missing: chem_utils.%s" % _n)
     _REAL[_n] = getattr(cu, _n)
@@ -263,10 +279,10 @@ def h_norm(k0: int, k1: int, k2: int, p: int) -> bool:
 SPOOL = ["CCCO", "CCOC", "C(C)O", "CCO"]
 
 
-def h_sim(a1: int, b0: int, b1: int, p: int, s1: int) -> bool:
+def h_sim(a1: int, b0: int, b1: int, p: int, s1: int, nb: int) -> bool:
     """
     pre: 0 <= a1 < 4 and 0 <= b0 < 4 and 0 <= b1 < 4
-    pre: 0 <= p < 2 and 0 <= s1 <= 4
+    pre: 0 <= p < 2 and 0 <= s1 <= 4 and 1 <= nb <= 3
     post: _
     """
     _install()
@@ -274,7 +290,7 @@ def h_sim(a1: int, b0: int, b1: int, p: int, s1: int) -> bool:
     _SIM.clear()
     _SIM["default"] = s1
     ea = [SPOOL[PART.get("a0", 0)], SPOOL[a1]]
-    ra = [SPOOL[b0], SPOOL[b1]]
+    ra = [SPOOL[b0], SPOOL[b1], "CC"][:nb] if nb != 1 else [SPOOL[b0]]
     prod = "N"
     exp = ".".join(ea) + ">>" + prod
     res = ".".join(ra) + ">>" + prod
